@@ -323,6 +323,9 @@ class Gen:
         r = rng.random()
         if r < 0.2 and svars:
             x = rng.choice(svars)
+            if getattr(self, 'braces_ok', False) and rng.random() < 0.4:
+                # braces round a single value: the same light
+                return ('{%s}' % x, '(RExpr (EVar %s))' % coq_str(x), ('NVar', x))
             return (x, '(RVar %s)' % coq_str(x), ('NVar', x))
         if r < 0.3 and smac:
             m = rng.choice(smac)
@@ -719,6 +722,7 @@ class Gen:
             w = None
             if kind == 'in':
                 srcs = []
+                self.braces_ok = True
                 for _ in range(rng.choice([1, 2, 2, 3])):
                     r = rng.random()
                     if r < 0.4:
@@ -730,6 +734,7 @@ class Gen:
                     else:
                         t, c, _ = self.gen_name_rval(lambda: self.group_name(True))
                         srcs.append(('location ' + t, '(SrcLocation %s)' % c))
+                self.braces_ok = False
                 head = 'in ' + ' and '.join(t for t, _ in srcs) + ' as ' + x
                 ctor = '(LIn %s %s %%s)' % (coq_list([c for _, c in srcs]), coq_str(x))
             else:
@@ -878,6 +883,10 @@ class K:
         return (txt_num(v), '(RLit %s)' % coq_lit(v))
 
     @staticmethod
+    def lit_s(s):
+        return ('"%s"' % s, '(RLit (LStr %s))' % coq_str(s))
+
+    @staticmethod
     def var(x):
         return (x, '(RVar %s)' % coq_str(x))
 
@@ -980,7 +989,7 @@ def scenario(rng, world):
     loops nested in a light loop while the caller has values pending; a routine defined inside a branch that
     is not taken or a loop body; index variables of caller and callee loops."""
     kind = rng.choice(['shadow', 'shadow', 'shadow', 'unwind', 'unwind', 'nested_def', 'nested_def', 'loop_in_loop',
-                       'arg_alias', 'arg_alias', 'paramless_local', 'paramless_local'])
+                       'arg_alias', 'arg_alias', 'paramless_local', 'paramless_local', 'computed_sources'])
     g = rng.choice(['a', 'x', 'n', 'level'])
     items = []
     if kind == 'shadow':
@@ -1031,6 +1040,23 @@ def scenario(rng, world):
             items.append(K.pr(K.expr(*K.e_bin('+', K.e_lit(1), K.e_call('twice', [K.r_call('probe', [])])))))
         else:
             items.append(K.rep_all('each', [K.assign('r', K.r_call('probe', [])), K.pr(K.var('each')), K.set_light_var('each')]))
+        items.append(K.pr(K.lit(999)))
+    elif kind == 'computed_sources':
+        # names of a light list given by expressions in braces and by calls: visited in the order written
+        names = [l[0] for l in world][:3] or ['no such']
+        grp = world[0][1] if world else 'g1'
+        items.append(K.assign('first', K.lit_s(names[0])))
+        items.append(K.assign('second', K.lit_s(names[-1])))
+        items.append(K.assign('gname', K.lit_s(grp)))
+        items.append(K.define('pick', ['n'], [K.pr(K.var('n')), K.if_(K.expr(*K.e_bin('==', K.e_var('n'), K.e_lit(1))), [K.ret(K.var('first'))]), K.ret(K.var('second'))]))
+        body = [K.pr(K.var('lx')), K.set_light_var('lx')]
+        srcs = rng.sample([('{first}', '(SrcLight (RExpr (EVar "first")))'), ('{second}', '(SrcLight (RExpr (EVar "second")))'),
+                           ('[pick 1]', '(SrcLight (RCall "pick" [RLit (LInt 1)]))'), ('[pick 2]', '(SrcLight (RCall "pick" [RLit (LInt 2)]))'),
+                           ('group {gname}', '(SrcGroup (RExpr (EVar "gname")))'), ('first', '(SrcLight (RVar "first"))'),
+                           ('"%s"' % names[0], '(SrcLight (RLit (LStr %s)))' % coq_str(names[0]))], rng.randint(2, 3))
+        b = K.block(body)
+        items.append(('repeat in %s as lx %s' % (' and '.join(t for t, _ in srcs), b[0]),
+                      '(SRepeat (LIn %s "lx" None) %s)' % (coq_list([c for _, c in srcs]), b[1])))
         items.append(K.pr(K.lit(999)))
     elif kind == 'arg_alias':
         # arguments are evaluated in the caller's scope: a caller variable named like one of the callee's parameters
